@@ -130,6 +130,13 @@ class Built:
             elif op == "path":
                 net.add_path([obj(i) for i in st[1]], origin=self.origins.get(st[2]) if st[2] else None,
                              destination=self.dests.get(st[3]) if st[3] else None)
+            elif op == "copy":
+                # the caller goes on with a COPY of everything built so far (copy.deepcopy, or a pickle round trip)
+                import copy
+                import pickle
+                pack = (net, self.nodes, self.links, self.origins, self.dests)
+                net, self.nodes, self.links, self.origins, self.dests = (
+                    copy.deepcopy(pack) if st[1] == "deepcopy" else pickle.loads(pickle.dumps(pack)))
             elif op == "use":
                 # the network is USED half-way through its construction (stepped, compiled, looked at), which must not
                 # matter once construction is finished; the intermediate network may be invalid: errors are the caller's
@@ -264,13 +271,25 @@ def opt_kwargs(case):
     return {OPT_KW[k]: bool(v) for k, v in case["opts"].items()}
 
 
+REUSE_ENGINES = False   # per case: every call gets a fresh engine object, or the whole worker process shares one per kind
+_ENGINES: dict = {}
+
+
 def np_engine(var_type="empty"):
     from sym_metanet.engines.numpy import Engine
+    if REUSE_ENGINES:
+        if ("np", var_type) not in _ENGINES:
+            _ENGINES[("np", var_type)] = Engine(var_type)
+        return _ENGINES[("np", var_type)]
     return Engine(var_type)
 
 
 def cs_engine(sym):
     from sym_metanet.engines.casadi import Engine
+    if REUSE_ENGINES:
+        if ("cs", sym) not in _ENGINES:
+            _ENGINES[("cs", sym)] = Engine(sym)
+        return _ENGINES[("cs", sym)]
     return Engine(sym)
 
 
@@ -325,6 +344,8 @@ def flat_next(b: Built):
 
 def observe(case: dict) -> dict:
     """run everything the case asks for; never raises"""
+    global REUSE_ENGINES
+    REUSE_ENGINES = zlib.crc32(f"{case.get('id')}|engines".encode()) % 2 == 1
     want = case.get("want") or {}
     obs = {"valid": False, "nmsgs": 0, "valid_err": "", "elements": [], "elements_ok": False,
            "np": {"has": False}, "np_plain": {"has": False}, "steps": [], "fn": [], "jac": [], "sens": [],
